@@ -2679,14 +2679,12 @@ class View(Module):
             self.base.indices_set_by_trainables, self.base.trainable_params
         ):
             pkey, pval = next(iter(params.items()))
+            # Parameters and states of compartments (incl. channels) are indexed by
+            # compartments, those of synapses by edges.
             trainable_inds_in_view = None
-            if pkey in sum(
-                [list(c.channel_params.keys()) for c in self.base.channels], []
-            ):
+            if pkey in self.base.nodes.columns:
                 trainable_inds_in_view = np.intersect1d(inds, self._nodes_in_view)
-            elif pkey in sum(
-                [list(s.synapse_params.keys()) for s in self.base.synapses], []
-            ):
+            elif pkey in self.base.edges.columns:
                 trainable_inds_in_view = np.intersect1d(inds, self._edges_in_view)
 
             in_view = is_viewed == np.isin(inds, trainable_inds_in_view)
